@@ -2,7 +2,7 @@ import Blots.Model.ExprPeg
 /-
   Driver handler for the character-level model of the `expression` rule (C10: operators,
   calls, index and field accesses, list literals, lambdas, conditionals, string and record
-  literals, do-blocks).
+  literals, do-blocks, assignments).
 
     expr-items <hstr text>   → ((pre RULE) (prim EXPR) (post fact) (post access EXPR)
                                 (post dot HSTR) (post call (EXPR …)) (inf RULE) …) | none
